@@ -104,6 +104,51 @@ func c19PlantDecoys(dir string, subs ...string) {
 	c19Symlink("../secretdir", filepath.Join(dir, "secretdir"))
 }
 
+// c19PlantInRootLinks adds symbolic links that stay INSIDE the configured
+// directory: links to directories (top level, below tile/, aliasing a layout
+// directory name), one layout directory that is itself a link to a sibling
+// store directory holding the real tiles, and links to regular files. os.Root
+// follows all of them; a link to a directory must stay as hidden as a directory.
+func c19PlantInRootLinks(c *c19Cfg, hash string) {
+	ln := func(target, link string) { c19Symlink(target, filepath.Join(c.Dir, link)) }
+	store := func(layoutDir, storeDir string) { // layoutDir becomes a link to ../.store/<name>
+		from, to := filepath.Join(c.Dir, layoutDir), filepath.Join(c.Dir, storeDir)
+		c19Check(os.MkdirAll(filepath.Dir(to), 0o755))
+		c19Check(os.Rename(from, to))
+		c19Check(os.Symlink("../.store/"+filepath.Base(storeDir), from))
+	}
+	if c.Kind == "log" {
+		ln("tile", "linkdir")
+		ln("data", "tile/linkdir")
+		ln("data", "tile/datalink")
+		ln("../data", "tile/0/linkdir")
+		ln("../tile", "issuer/linkdir")
+		ln("checkpoint", "cp-link")
+		ln("../checkpoint", "tile/cp-link")
+		if c.Name == "p2" {
+			store("tile/names", ".store/names")
+		}
+		return
+	}
+	ln(hash, "linkdir")
+	c19Check(os.MkdirAll(filepath.Join(c.Dir, hash, "tile"), 0o755))
+	ln("..", hash+"/tile/linkdir")
+	ln("checkpoint", hash+"/cp-link")
+	ln("../checkpoint", hash+"/tile/cp-link")
+	if c.Name == "w1" {
+		m := "mirror/" + hash
+		ln(hash, "mirror/linkdir")
+		ln("tile", m+"/linkdir")
+		ln("0", m+"/tile/linkdir")
+		ln("entries", m+"/tile/entrieslink")
+		ln("checkpoint", m+"/cp-link")
+		ln("../checkpoint", m+"/tile/cp-link")
+		store(m+"/tile/entries", m+"/.store/entries")
+		// the alias must keep pointing at the real directory
+		ln("../.store/entries", m+"/tile/entrieslink")
+	}
+}
+
 func c19BuildWorld(real bool) *c19World {
 	base, err := os.MkdirTemp("", "c19-")
 	c19Check(err)
@@ -156,6 +201,7 @@ func c19BuildWorld(real bool) *c19World {
 			}
 			c19PlantDecoys(c.Dir, subs...)
 		}
+		c19PlantInRootLinks(c, w.Hash)
 		c.idx = c19Index(c.Dir)
 		c.objs = map[[32]byte]*c19Obj{}
 		for i := range c.Objs {
@@ -164,9 +210,9 @@ func c19BuildWorld(real bool) *c19World {
 	}
 
 	logAlpha := []string{"checkpoint", "log.v3.json", "tile", "issuer", "0", "1", "data", "names", "000", "001", "000.p", "001.p", "x000", "255", w.FP,
-		"..", ".", "", "%2e%2e", "%2f", "%5c", "..%2fcheckpoint", ".hidden", "secretdir", "secret", "leak", "outdir", "passwd"}
+		"..", ".", "", "%2e%2e", "%2f", "%5c", "..%2fcheckpoint", ".hidden", "secretdir", "secret", "leak", "outdir", "passwd", "linkdir", "datalink", "cp-link"}
 	witAlpha := []string{w.Hash, "mirror", "checkpoint", "witness.v0.json", "mirror.v0.json", "tile", "0", "1", "entries", "000", "001.p", "000.p",
-		"..", ".", "", "%2e%2e", "%2f", "%5c", ".hidden", "secretdir", "secret", "leak", "outdir", "passwd"}
+		"..", ".", "", "%2e%2e", "%2f", "%5c", ".hidden", "secretdir", "secret", "leak", "outdir", "passwd", "linkdir", "entrieslink", "cp-link"}
 	rootAlpha := []string{"p2", "p3", "deep", "real", "wit", "mirror", w.Hash, "health", "metrics", "logs.json", "checkpoint", "log.v3.json", "tile", "0", "000",
 		"..", "", "%2e%2e", "%2f", "secretdir", "secret", "h1", "w1"}
 	w.Bases = []c19Base{
@@ -848,7 +894,7 @@ func c19Run(rp *verifmc.Report) {
 // c19Reduced keeps the segments that matter most beyond the full-alphabet depth.
 func c19Reduced(alpha []string, thorough bool) []string {
 	keep := map[string]bool{"checkpoint": true, "tile": true, "0": true, "data": true, "entries": true, "000": true, "001.p": true, "1": true,
-		"..": true, "": true, "%2f": true, "secretdir": true, "secret": true, "leak": true, "mirror": true}
+		"..": true, "": true, "%2f": true, "secretdir": true, "secret": true, "leak": true, "mirror": true, "linkdir": true}
 	if thorough {
 		for _, s := range []string{"issuer", "names", "%2e%2e", "outdir", "log.v3.json", ".", "000.p"} {
 			keep[s] = true
